@@ -586,6 +586,12 @@ Section HpkeTheorems.
   (* ---------------------------------------------------------------- *)
   (* symbolic binding: a tampered (enc, info, key) is accepted only if *)
   (* one of the primitives exhibits an explicit collision              *)
+  (* SUPERSEDED by proofs/HpkeBinding.v: [expand_collision] below      *)
+  (* quantifies the output length, n = 0 makes it provable outright     *)
+  (* (HpkeBinding.old_expand_collision_trivial), so the theorems of     *)
+  (* this block that conclude "... \/ expand_collision" are vacuous and *)
+  (* no longer appear in props/C06.v.  hpke_binding_prefix and          *)
+  (* hpke_binding_payload (no collision disjunct) are still used.       *)
   (* ---------------------------------------------------------------- *)
   Definition extract_collision : Prop :=
     exists h x s x' s', (x <> x' \/ s <> s') /\ extract h x s = extract h x' s'.
